@@ -40,7 +40,7 @@ def plan(tier, seed, rng, scale):
         for rule in RULES:
             descs.append({'k': k, 'rc': rng.random() < 0.7, 'rule': rule, 'minc': rng.randint(1, 6),
                           'minq': rng.choice([0, 1, 2, 10, 20, 30, 40]), 'seed': rng.getrandbits(32)})
-    n = int((500 if tier == 'quick' else 12000) * scale)
+    n = int((2500 if tier == 'quick' else 25000) * scale)
     for i in range(n):
         descs.append({'k': rng.choice(G.ALL_K), 'rc': rng.random() < 0.7, 'rule': rng.choice(list(RULES)),
                       'minc': rng.randint(1, 6), 'minq': rng.choice([0, 1, 2, 10, 20, 30, 40]), 'seed': rng.getrandbits(32)})
